@@ -304,7 +304,12 @@ storage_properties_copy(struct StorageProperties* dst,
                &dst->secret_access_key,
                sizeof(struct String)); // NOLINT
 
+        // dst keeps ownership of its own dimension array across the memcpy
+        const struct storage_properties_dimensions_s tmp_dims =
+          dst->acquisition_dimensions;
+
         memcpy(dst, src, sizeof(*dst));                     // NOLINT
+        dst->acquisition_dimensions = tmp_dims;
         memcpy(&dst->uri, &tmp_uri, sizeof(struct String)); // NOLINT
         memcpy(&dst->external_metadata_json,                // NOLINT
                &tmp_meta,
@@ -325,9 +330,13 @@ storage_properties_copy(struct StorageProperties* dst,
     CHECK(copy_string(&dst->secret_access_key, &src->secret_access_key));
 
     // 3. Copy the dimensions
-    if (src->acquisition_dimensions.data) {
+    if (dst->acquisition_dimensions.data) {
         storage_properties_dimensions_destroy(dst);
-
+    }
+    memset(&dst->acquisition_dimensions, // NOLINT
+           0,
+           sizeof(dst->acquisition_dimensions));
+    if (src->acquisition_dimensions.data) {
         CHECK(storage_properties_dimensions_init(
           dst, src->acquisition_dimensions.size));
         for (size_t i = 0; i < src->acquisition_dimensions.size; ++i) {
